@@ -28,6 +28,9 @@ func main() {
 		replayMain(os.Args[2:])
 	case "corpus-gen":
 		corpusGenMain(os.Args[2])
+	case "mine-edges":
+		mineEdgesMain(os.Args[2:])
+		return
 	case "conc-worker":
 		concWorkerMain(os.Args[2:])
 	default:
